@@ -1196,7 +1196,7 @@ class PDFCIDFont(PDFFont):
                 cmap_name = literal_name(spec["Encoding"])
             else:
                 cmap_name = literal_name(spec_encoding["CMapName"])
-        except KeyError:
+        except (KeyError, TypeError):
             if strict:
                 raise PDFFontError("Encoding is unspecified")
 
